@@ -120,12 +120,13 @@ type loopObs struct {
 }
 
 type loopResult struct {
-	Obs      []loopObs
-	Key      string
-	What     string
-	Attempts int
-	Failed   int
-	Requeues int
+	TwinStale int // comparisons where the fault-free twin's files were behind its model (C01) and a equals a fresh controller
+	Obs       []loopObs
+	Key       string
+	What      string
+	Attempts  int
+	Failed    int
+	Requeues  int
 }
 
 func genLoop(rng *rand.Rand, wide bool) LoopInput {
@@ -181,6 +182,18 @@ func loopCorpus(rng *rand.Rand) []LoopInput {
 		create(ing("ing2", "b.example", 11)),
 		create(ing("ing3", "sub.a.example", 12)),
 	})
+	defIng := world.Ingress("ns1", "ing2", 11)
+	defIng.Spec.DefaultBackend = &networking.IngressBackend{}
+	*defIng.Spec.DefaultBackend = world.Backend("svc2", "", 80)
+	cdef := world.EncodeHistory([][]pipeline.Change{
+		create(world.Service("ns1", "svc1", world.SvcPort{Name: "http", Port: 80, TargetPort: intstr.FromInt(8080)}),
+			world.Endpoints("ns1", "svc1", world.EpPort{Name: "http", Port: 8080, Ready: []string{"10.0.0.1"}}),
+			world.Service("ns1", "svc2", world.SvcPort{Name: "http", Port: 80, TargetPort: intstr.FromInt(8080)}),
+			world.Endpoints("ns1", "svc2", world.EpPort{Name: "http", Port: 8080, Ready: []string{"10.0.0.2"}}),
+			world.Ingress("ns1", "ing1", 10, world.IngRule{Host: "",
+				Paths: []world.IngPath{{Path: "/app", Type: "Prefix", Service: "svc1", PortNum: 80}}})),
+		create(defIng),
+	})
 	return []LoopInput{
 		// failure, then the scheduled retry with an empty batch
 		{Shards: 3, Cluster: c, Script: []LoopEv{{Kind: "deliver"}, {Kind: "tick"}, {Kind: "tick", Full: true}, {Kind: "attempt", Full: true}, {Kind: "attempt"},
@@ -193,6 +206,12 @@ func loopCorpus(rng *rand.Rand) []LoopInput {
 			{Kind: "deliver"}, {Kind: "tick"}, {Kind: "attempt", Fault: "main"}, {Kind: "reload"}, {Kind: "tick"}, {Kind: "attempt"}}},
 		{Shards: 0, Cluster: c, Script: []LoopEv{{Kind: "deliver"}, {Kind: "tick"}, {Kind: "tick", Full: true}, {Kind: "attempt", Full: true}, {Kind: "attempt"}, {Kind: "reload"},
 			{Kind: "deliver"}, {Kind: "tick"}, {Kind: "attempt"}, {Kind: "deliver"}, {Kind: "tick"}, {Kind: "attempt", Fault: "crt"}, {Kind: "reload"}, {Kind: "tick"}, {Kind: "attempt"}}},
+		// the retry that rewrites everything is right where the fault-free twin is behind its own model
+		// (known finding C01/ingress-default-backend-not-pretracked: an ingress with only
+		// spec.defaultBackend added by a partial sync while the default host exists leaves the
+		// frontend maps unwritten): not a change lost by the retry layer
+		{Shards: 0, Cluster: cdef, Script: []LoopEv{{Kind: "deliver"}, {Kind: "tick"}, {Kind: "attempt", Fault: "crt"},
+			{Kind: "deliver"}, {Kind: "tick"}, {Kind: "attempt"}}},
 		// two failures in a row of the same request
 		{Shards: 0, Cluster: c, Script: []LoopEv{{Kind: "deliver"}, {Kind: "tick"}, {Kind: "attempt", Fault: "main"}, {Kind: "tick"}, {Kind: "attempt", Fault: "crt"}, {Kind: "deliver"}}},
 	}
@@ -237,13 +256,32 @@ func runLoop(base string, in LoopInput) loopResult {
 			res.Key, res.What = key, what
 		}
 	}
+	// same: the files of a mean what those of the twin mean.  The twin ran the same partial /
+	// full reconciliations without fault; when a partial sync leaves the twin's own files behind
+	// its model (findings of C01: e.g. a path added to a host that is not in the changed set),
+	// the rewrite-everything retry of a is the one that is right: a is then compared with a
+	// controller started from scratch on the same cluster, and only a difference with both is a
+	// change lost by the retry layer.
 	same := func() bool {
 		na, ea := cfgnorm.Load(a.p.Dir(), a.p.Prefix())
 		nt, et := cfgnorm.Load(t.p.Dir(), t.p.Prefix())
 		if ea != nil || et != nil {
 			return ea != nil && et != nil
 		}
-		return cfgnorm.Equal(na, nt)
+		if cfgnorm.Equal(na, nt) {
+			return true
+		}
+		q, err := a.p.Fresh(filepath.Join(base, "loopf"))
+		if err != nil {
+			return false
+		}
+		defer q.Close()
+		nq, eq := cfgnorm.Load(q.Dir(), q.Prefix())
+		if eq == nil && cfgnorm.Equal(na, nq) {
+			res.TwinStale++
+			return true
+		}
+		return false
 	}
 	record := func(ev, sameS string) {
 		res.Obs = append(res.Obs, loopObs{Ev: ev, RP: ready.p, RF: ready.f, DP: delay.p, DF: delay.f, Same: sameS})
